@@ -238,6 +238,7 @@ template <typename Tr> struct Runner {
   std::vector<char> deferred; // per slot: first observation deferred
   std::function<void(const ap::Step&, std::vector<T>&)> execOp;
   bool ok = true; std::string msg; size_t observations = 0, comparisons = 0;
+  bool light = false;   // eager twin of a lazy history: force every new value (Status()) instead of re-observing everything
   std::map<std::string, int> opHist;
   int liveCount() const { int n = 0; for (int g : gid) n += g >= 0; return n; }
   std::vector<int> liveIdx() const { std::vector<int> v; for (size_t i = 0; i < gid.size(); i++) if (gid[i] >= 0) v.push_back((int)i); return v; }
@@ -279,6 +280,11 @@ template <typename Tr> struct Runner {
       bool fine = true; for (size_t k = 0; k < s.src.size(); k++) fine = fine && srcOk(k);
       if (fine) execOp(s, pool); else pool.push_back(T());
       while (gid.size() < pool.size()) { gid.push_back(newGroup(stepNo, op)); deferred.push_back(defer); }
+    }
+    if (light) {
+      for (size_t i = before; i < pool.size(); i++) if (gid[i] >= 0) Tr::get(pool[i], Tr::count() - 1);
+      if ((op == "iadd" || op == "isub" || op == "iint") && srcOk(0)) Tr::get(pool[s.src[0]], Tr::count() - 1);
+      return pool.size() - before;
     }
     // re-observe every live object; a deferred slot is skipped until its group has been seen
     // through another member or a `look` clears the flag
@@ -469,15 +475,20 @@ static void runLazyPair(const std::string& tag, const std::vector<std::string>* 
   bool ok = true; std::string msg;
   gTag = tag; gKind = 3; gRec = nullptr; armCrashHandler();
   {
-    Runner<MTraits> run; run.execOp = mexec;   // eager twin: every result observed at once
-    hz::Rng r(seed); lz::Gen gen(r); lz::Leaves leaves;
+    Runner<MTraits> run; run.execOp = mexec; run.light = true;   // eager twin: every result forced at once
+    hz::Rng r(seed); lz::Gen gen(r); lz::Leaves leaves; std::vector<int> dropSoon;
     int n = given ? (int)given->size() : L;
     for (int i = 0; i < n; i++) {
       ap::Step s;
       if (given) { if (!ap::parse((*given)[i], s)) continue; if (s.op == "kind") continue; }
       else {
         bool m;
+        // derive-and-drop: results of derived operations are often temporaries that die without ever being looked at
+        for (size_t q = 0; q < dropSoon.size();) { if (run.gid.size() <= (size_t)dropSoon[q] || run.gid[dropSoon[q]] < 0) dropSoon.erase(dropSoon.begin() + q); else q++; }
+        bool dropNow = !dropSoon.empty() && r.below(100) < 45;
         for (int tries = 0;; tries++) {
+          if (dropNow) { size_t q = r.below(dropSoon.size()); s = ap::Step(); s.op = r.below(4) ? "destroy" : "assign"; s.src = {dropSoon[q]}; if (s.op == "assign") { auto lv = run.liveIdx(); s.src.push_back(lv[r.below(lv.size())]); } dropSoon.erase(dropSoon.begin() + q); dropNow = false; }
+          else
           s = genStep(gen, r, run.liveIdx(), 9, m);
           if (s.op == "look") s.op = "copy";
           if (tries >= 30) s = gen.prim();
@@ -488,6 +499,8 @@ static void runLazyPair(const std::string& tag, const std::vector<std::string>* 
         printf("PROG %s.%d %s\n", tag.c_str(), i + 1, ap::show(s).c_str());
       }
       fflush(stdout); gStep = i; prog.push_back(s); leaves.apply(s, false);
+      { const std::string b = s.op[0] == '~' ? s.op.substr(1) : s.op;
+        if (!given && (b == "add" || b == "sub" || b == "int" || b == "batch" || b == "tbool" || b == "tview" || b == "translate" || b == "scale" || b == "mirror") && r.below(100) < 45) dropSoon.push_back((int)run.pool.size()); }
       ap::Step e = s; if (e.op[0] == '~') e.op = e.op.substr(1);
       hist[e.op]++;
       run.step(e, i);
